@@ -56,7 +56,7 @@ func (lb *LoadBalancer) ListBackends() []BackendInfo {
 			Name:              b.Name,
 			Address:           b.URL.String(),
 			Healthy:           b.IsHealthy,
-			ActiveConnections: b.ActiveConnections,
+			ActiveConnections: atomic.LoadInt32(&b.ActiveConnections),
 			Weight:            b.Weight,
 		}
 		b.Mutex.RUnlock()
